@@ -355,7 +355,8 @@ def _mk_state_classes():
                         ok = ok and not (bufs_c & bufs_o)
                     else:
                         ok = ok and not w.np.shares_memory(c._value, cv._value)
-                    return [('shares_nothing', self.flag(w, ok))]
+                    return [('shares_nothing', self.flag(w, ok)),
+                            ('periodic_flags_equal', self.flag(w, current_pattern(w, c) == current_pattern(w, cv)))]
                 if part == 'interior':
                     return [('equal_interior', w.eq(w.at(c._value, P), w.at(cv._value, P)))]
                 return inv_claims(w, c, P, part, 'copy')
